@@ -47,6 +47,16 @@ def real_fs_sites(ctx, eff, C):
     return out
 
 
+class _VfsObject:
+    """Stands for `the VFS object of this request` in evaluations (not a builtin value, so nothing folds it)."""
+
+    def __init__(self, name):
+        self.name = name
+
+    def __repr__(self):
+        return f"<a {self.name} object>"
+
+
 def vfs_gate_obligations(ctx, rep, rule, eff=None):
     prog = ctx.prog
     eff = eff or Effects(prog, ctx.resolver)
@@ -89,10 +99,32 @@ def vfs_gate_obligations(ctx, rep, rule, eff=None):
                                 tested = True
                         if isinstance(node, ast.Call) and norm(node) == "type(self.vfs)":
                             tested = True
-            w = Walker(prog, ctx.resolver, assumptions=assumptions,
+            # the VFS object itself is known too: helpers that are handed self.vfs and test its kind are followed
+            marker = _VfsObject(S.name)
+            assumptions["self.vfs"] = Const(marker)
+            holder = {}
+
+            def cv(call, target, st, _S=S, _marker=marker):
+                a = holder["w"].cur_args or []
+                d_ = dotted(call.func) or ""
+                if d_ == "type" and len(a) == 1 and a[0].kind == "const" and a[0].value is _marker:
+                    holder["tested"] = True
+                    return Ref(_S)
+                if d_ == "isinstance" and len(a) == 2 and a[0].kind == "const" and a[0].value is _marker:
+                    ks = a[1].value if a[1].kind == "const" and isinstance(a[1].value, tuple) else [a[1].value] if a[1].kind == "ref" else None
+                    if a[1].kind == "ref":
+                        ks = [a[1].value]
+                    if ks and all(hasattr(k, "methods") for k in ks):
+                        holder["tested"] = True
+                        return Const(any(prog.is_subclass(_S, k) for k in ks))
+                return None
+
+            w = Walker(prog, ctx.resolver, assumptions=assumptions, sticky={"self.vfs"}, call_value=cv,
                        inline=lambda fn, t, d: t.bound_cls is not None or (fn.cls is not None and t.kind == "repo"
                                                                            and not t.by_name and len(t.funcs) == 1
-                                                                           and fn.name == "canhandlerequest"))
+                                                                           and fn.name == "canhandlerequest")
+                       or (d < 3 and fn.cls is None and fn.module.name.startswith("pygopherd.handlers") and len(fn.node.body) <= 6))
+            holder["w"] = w
             try:
                 for p in w.run(can, C):
                     if p.kind == "return" and truth(p.value) is not False:
@@ -100,6 +132,7 @@ def vfs_gate_obligations(ctx, rep, rule, eff=None):
                         break
             except Exception:  # path limit: cannot show the refusal
                 bad.append(S)
+            tested = tested or bool(holder.get("tested"))
         atom_texts = tested
         what = sorted({f"{s['what']}({norm(s['call'].args[0])[:40] if s['call'].args else ''}) in {s['func'].qualname}" for s in sites})
         rep.add(rule, f"{C.qualname} refuses non-real VFS", not bad, ctx.where(can),
@@ -161,6 +194,12 @@ def stat_mode_obligations(ctx, rep, rule="R16h"):
                         v = resolve_value(v, fn, V, None, prog, ctx.resolver)
                     except Exception:
                         pass
+                if isinstance(v, ast.Name) and v.id in fn.module.globals and len(fn.module.globals[v.id]) == 1:
+                    v = fn.module.globals[v.id][0]
+                if isinstance(v, ast.Attribute) and isinstance(v.value, ast.Name) and v.value.id in ("self", "cls", V.name):
+                    ca = prog.class_attr(V, v.attr)
+                    if ca is not None:
+                        v = ca
                 if isinstance(v, ast.Tuple) and v.elts:
                     yield fn, n, v.elts[0]
                 elif isinstance(v, ast.Call) and depth < 2:
